@@ -363,7 +363,7 @@ fn cmd_check_inner(m: &HashMap<String, String>) -> i32 {
         ("runs_with_nodrop_element", J::i(st.runs_plain as i64)),
         ("runs_with_zero_sized_element", J::i(st.runs_zst as i64)),
         ("runs_with_uniform_payload_values", J::i(st.runs_uniform as i64)),
-        ("element_shapes", J::s("vector runs draw the element shape per run: Tok (8 bytes, align 4, drop glue) 9/16; Wide16 (16 bytes, align 16, checked padding byte in front of the payload, drop glue) 4/16; PlainNoDrop (no drop glue, so mem::needs_drop::<T>() is false: order, length, aliasing and read-after-yield are checked, drop accounting is unobservable) 2/16; ZstDrop (zero-sized with drop glue: counting oracle created - destroyed - forgotten == owned, len/size_hint, yields) 1/16. Matrix runs use Tok (rows and columns are VecN<Tok>); 1/16 of them run the matrix part on ZstDrop with the counting oracle.")),
+        ("element_shapes", J::s("vector runs draw the element shape per run: Tok (8 bytes, align 4, drop glue) 9/16; Wide16 (16 bytes, align 16, checked padding byte in front of the payload, drop glue) 4/16; PlainNoDrop (no drop glue, so mem::needs_drop::<T>() is false: order, length, aliasing and read-after-yield are checked, drop accounting is unobservable) 2/16; ZstDrop (zero-sized with drop glue: counting oracle created - destroyed - forgotten == owned, len/size_hint, yields) 1/16. Matrix runs: Tok 10/16, Wide16 3/16, PlainNoDrop 2/16 (rows and columns are VecN<leaf>), ZstDrop 1/16 (matrix part only, counting oracle).")),
         ("simulated_steps_executed", J::i(st.ops_exec as i64)),
         ("simulated_steps_skipped_precondition", J::i(st.ops_skipped as i64)),
         ("simulated_time_note", J::s("vek has no clock; simulated time is the number of simulator steps (operations executed)")),
